@@ -126,3 +126,31 @@ pub fn single_feature(rng: &mut Rng, backgrounds: &[B], emit_pm: u32, rep: &mut 
         }
     }
 }
+
+/// A state reached by real play (incremental hash) against the 64 x 12 states that differ from it
+/// in the content of one square and are built from scratch: their transposition hashes must differ.
+pub fn reached_neighbours(g: &Game, ab: &B, rep: &mut Report) {
+    let s = &g.state;
+    let Some(pp) = s.as_play_phase() else { return };
+    let side = s.is_p1_turn_to_move();
+    let step = pp.step();
+    let pps = pp.push_pull_state();
+    let h = s.transposition_hash();
+    for sq in 0..64 {
+        for c in 0..13u8 {
+            let cell = if c == 0 { None } else { Some(((c - 1) / 6 == 0, (c - 1) % 6)) };
+            if cell == ab[sq] {
+                continue;
+            }
+            let mut b = *ab;
+            b[sq] = cell;
+            rep.eval("C17");
+            let n = build(&b, side, step, pps);
+            if n.transposition_hash() == h {
+                rep.fail("C17", "reached-state-hashes-like-a-one-square-neighbour", g, format!("square {} with content {} instead of {:?}: both hash {:016x}", sq, c, ab[sq], h));
+                return;
+            }
+        }
+    }
+    rep.nontriv("C17", fnv(&[7, state_key(s)]));
+}
